@@ -17,7 +17,7 @@ def check(ctx, world):
         "symmetric term is syntactically symmetric in m1, m2. F3: the key term returned by finish() of each class equals "
         "the specification term with the instance's own fields in the slots of the same meaning (A: X = own, Y = peer; "
         "B: X = peer, Y = own; Symmetric: both, sorted).")
-    ctx.min_obligations = 7
+    ctx.min_obligations = 6
     ev = session.new_ev(world)
     sp = world.module("spake2.spake2")
     for fname, names, want in (
